@@ -88,6 +88,7 @@ class C15(Prop):
             'its key prefix and save the very same recording again through the same cassette object (a recording object fetched earlier in the sequence is saved as it is when the save asks for exactly its content); three sequences close a transient '
             'cassette, use it again and close it again; foreign objects include neighbours whose keys only begin like the cassette\'s folders; rarely (~3% of the sequences) a default-prefix cassette next to one with prefix '
             "'full' / 'metadata' (known finding K8); a case is non-trivial when it logged a mutation or refused a write; "
+            '+ (not modelled) a read-only cassette looking up recordings with a metadata filter in a key space that also holds objects it cannot read as metadata: the bucket is unchanged; '
             'distinct = distinct canonical case')
     TRUSTED = ['correspondence harness harness/props/c15.py + Lean driver (Drive/S3.lean, handler c15.run)',
                'harness/fake_s3.py: the in-memory stand-in for boto3.client / boto3.resource behind the REAL S3BasicFacade '
@@ -129,6 +130,16 @@ class C15(Prop):
                 cases.append(self.reclose_seq(rng))
             if rng.random() < 0.15:
                 cases.append(self.multi_crash(base, rng))
+        # (not modelled) a read-only cassette looking up recordings with a metadata filter in a key space that also holds objects
+        # it cannot read as metadata (a console folder marker, a truncated upload, a stray file): whatever the lookup does -
+        # fail or skip them - it changes nothing in the bucket
+        for _ in range(12 if tier == 'quick' else 120):
+            p = rng.choice(PREFIXES)
+            cat = rng.choice(CATS[:2])
+            junk = rng.sample(['%s/' % cat, '%s/20210301/' % cat, '%s/20210301/junk' % cat, '%s/20210301/u000.part' % cat], rng.randint(1, 3))
+            cases.append({'kind': 'rolist', 'model': False, 'p': p, 'cat': cat, 'junk': junk, 'empty': [rng.random() < 0.5 for _ in junk],
+                          'saved': rng.randint(0, 3), 'filter': rng.choice([{'m': 1}, {'m': 'x'}, {'n': [1, 2]}]),
+                          'how': rng.choice(['ids', 'metadata'])})
         return cases
 
     @staticmethod
@@ -386,7 +397,42 @@ class C15(Prop):
         out.sort(key=lambda e: e[0])
         return out
 
+    def run_rolist(self, case):
+        from harness import fake_s3
+        fake_s3.install()
+        fake_s3.reset()
+        import playback.tape_cassettes.s3.s3_tape_cassette as mod
+        from playback.recordings.memory.memory_recording import MemoryRecording
+        mod.datetime = FakeDT
+        mod.uuid = FAKE_UUID
+        FakeDT.NOW = EPOCH + datetime.timedelta(seconds=TIMES[1])
+        st = fake_s3.store(BUCKET)
+        st.clock = lambda: FakeDT.NOW
+        writer = mod.S3TapeCassette(BUCKET, key_prefix=case['p'], read_only=False)
+        for j in range(case['saved']):
+            rec = MemoryRecording('%s/%s/s%03d' % (case['cat'], day_str(TIMES[1]), j))
+            rec.set_data('k', 1)
+            rec.add_metadata({'m': 1} if j % 2 == 0 else {'m': 'x', 'n': [1, 2]})
+            writer.save_recording(rec)
+        _, _, meta_root = roots(case['p'])
+        for k, empty in zip(case['junk'], case['empty']):
+            st.objects[meta_root + k] = (b'' if empty else b'foreign, not json', st.now(), 'STANDARD')
+        before = dict(st.objects)
+        log0 = len(st.log)
+        reader = mod.S3TapeCassette(BUCKET, key_prefix=case['p'], read_only=True)
+        try:
+            if case['how'] == 'ids':
+                res = ['ok', len(list(reader.iter_recording_ids(case['cat'], metadata=case['filter'])))]
+            else:
+                res = ['ok', len(list(reader.iter_recordings_metadata(case['cat'], metadata=case['filter'])))]
+        except Exception as ex:
+            res = ['raised', type(ex).__name__]
+        return {'res': res, 'log': [list(map(str, e)) for e in st.log[log0:]],
+                'deleted': sorted(k for k in before if k not in st.objects), 'changed': sorted(k for k in st.objects if before.get(k) != st.objects[k])}
+
     def run_impl(self, case):
+        if case.get('kind') == 'rolist':
+            return self.run_rolist(case)
         from harness import fake_s3
         fake_s3.install()
         fake_s3.reset()
@@ -494,23 +540,36 @@ class C15(Prop):
         return {'steps': steps, '_reused': len(reused)}
 
     def impl_view(self, case, impl):
+        if case.get('kind') == 'rolist':
+            return None
         return {'steps': [{k: s[k] for k in VIEW_KEYS} for s in impl['steps']]}
 
     # ------------------------------------------------------------------------------------------------------
     # the model
     # ------------------------------------------------------------------------------------------------------
     def model_requests(self, case):
+        if case.get('kind') == 'rolist':
+            return []
         req = {k: v for k, v in case.items() if not k.startswith('_')}
         req['m'] = 'c15.run'
         return [req]
 
     def model_transcript(self, case, answers):
+        if case.get('kind') == 'rolist':
+            return None
         return answers[0]
 
     # ------------------------------------------------------------------------------------------------------
     # the property, stated over the implementation transcript
     # ------------------------------------------------------------------------------------------------------
     def oracle(self, case, impl):
+        if case.get('kind') == 'rolist':
+            if impl['log'] or impl['deleted'] or impl['changed']:
+                return ['a READ-ONLY cassette (prefix %r) looking up %s of category %r with filter %r in a key space that also holds %r '
+                        '(%s) changed the bucket: mutations %r, deleted %r, changed %r'
+                        % (case['p'], case['how'], case['cat'], case['filter'], case['junk'], impl['res'], impl['log'][:6],
+                           impl['deleted'][:6], impl['changed'][:6])]
+            return []
         fails = []
         owner = {}      # key -> key prefix of the cassette that wrote the object (recordings belong to a key prefix)
         for i, (op, s) in enumerate(zip(case['ops'], impl['steps'])):
@@ -622,9 +681,13 @@ class C15(Prop):
 
     # ------------------------------------------------------------------------------------------------------
     def nontrivial(self, case, impl):
+        if case.get('kind') == 'rolist':
+            return True
         return any(s['log'] or s['res'] == 'AssertionError' for s in impl['steps'])
 
     def features(self, case, impl):
+        if case.get('kind') == 'rolist':
+            return ['read-only-filtered-lookup-among-unreadable-objects:%s' % impl['res'][0]]
         out = set()
         out.add('cassettes:%d' % len(case['cfgs']))
         out.add('ops:%d' % len(case['ops']))
@@ -654,7 +717,7 @@ class C15(Prop):
         with full/ / metadata/) AND every failure is one of the two shapes the oracle marks under exactly those conditions
         (objects of such a neighbour deleted by the transient default-prefix close; a neighbour's object discoverable but
         not fetchable through the default prefix)"""
-        if not failures:
+        if not failures or case.get('kind') == 'rolist':
             return None
         ps = [c['p'] for c in case['cfgs']]
         if '' not in ps or not any(shadowed(q) for q in ps):
@@ -664,6 +727,8 @@ class C15(Prop):
         return None
 
     def shrink(self, case):
+        if case.get('kind') == 'rolist':
+            return
         ops, cfgs, foreign = case['ops'], case['cfgs'], case['foreign']
         for i in range(len(ops) - 1, -1, -1):
             if len(ops) > 1:
